@@ -1146,11 +1146,17 @@ class Interp:
                 self.bind(p, a, ec, fr)
             saved = fr.rets
             fr.rets = []
+            ec0 = dict(ec)
             res = self.expr(cl.body, ec, fr)
             flows = [(pc, v) for pc, v, _ in fr.rets]
             fr.rets = saved
             if res is not None:
                 flows.append((res[1]["$pc"], res[0]))
+                # writes to captured places (a `move` / FnMut closure assigning through a captured `&mut`) are visible to the caller
+                changed = {k: v for k, v in res[1].items() if k != "$pc" and k in cl.env and v is not ec0.get(k)}
+                if changed:
+                    env = dict(env)
+                    env.update(changed)
             if not flows:
                 return None
             return (self.assemble(flows), env)
